@@ -24,6 +24,10 @@ THEOREMS = [
     'PbBss.C16.shipped_512_planOk',
     'PbBss.C16.shipped_1024_planOk',
     'PbBss.C16.shipped_512_plan',
+    'PbBss.C16.twoLevel_patterns_in_domain',
+    'PbBss.C16.twoLevel_restored_by_greedy',
+    'PbBss.C16.em_posteriors_restored_by_greedy',
+    'PbBss.C16.em_posteriors_restored_by_dhtv',
 ]
 ASSUMPTIONS = [
     'DHTV convergence from a first-segment majority is a theorem for the cos and multiply metrics (dhtv_majority, '
